@@ -36,6 +36,7 @@ Definition red (k : kind) (r : req) : req := red_from k 0 r.
 Inductive op :=
  | OReq (s : nat) (k : kind) (n : N) (r : req) (sz : Z)     (* svc.Request on worker s *)
  | OPlan (s : nat)                                          (* PlanFlush *)
+ | OSend (s : nat)                                          (* let the OnBeforeInsert callback of worker s return: Do is called *)
  | ORet (s : nat) (ok : bool)                               (* let the blocked Do of worker s return *)
  | OStop (s : nat).                                         (* Stop *)
 
@@ -43,6 +44,7 @@ Definition op_act (o : op) : gact :=
   match o with
   | OReq s k n r sz => GEnvReq s k n (red k r) sz     (* what the harness can store of r *)
   | OPlan s => GSvc s SPlan
+  | OSend s => GSvc s SSend
   | ORet s ok => GSvc s (SDoReturn ok)
   | OStop s => GSvc s SStop
   end.
@@ -115,6 +117,7 @@ Definition event_eqb (a b : event) : bool :=
   | EReq s p k r sz i, EReq s' p' k' r' sz' i' =>
       Nat.eqb s s' && pid_eqb p p' && kind_eqb k k' && block_eqb r r' && Z.eqb sz sz' && obool_eqb i i'
   | EDial s ok, EDial s' ok' => Nat.eqb s s' && Bool.eqb ok ok'
+  | ESwap s, ESwap s' => Nat.eqb s s'
   | ESend s k b, ESend s' k' b' => Nat.eqb s s' && kind_eqb k k' && block_eqb b b'
   | EDone s ok, EDone s' ok' => Nat.eqb s s' && Bool.eqb ok ok'
   | EResolve p k r ok, EResolve p' k' r' ok' => pid_eqb p p' && kind_eqb k k' && block_eqb r r' && Bool.eqb ok ok'
@@ -140,6 +143,8 @@ Record case := {
   c_cfg : list (kind * nat * Z);
   c_attempts : N;
   c_dials : list (list bool);        (* per worker: outcomes of its successive V3Session() calls *)
+  c_drained : bool;                  (* the script ends with a complete drain (every Do answered, nothing left to flush, no worker
+                                        stopped, no request accounted with size 0): every promise must have been completed *)
   c_ops : list op;
   c_obs : list (list event)          (* what the harness observed after each operation *)
 }.
@@ -156,6 +161,16 @@ Definition model_mismatch (c : case) : bool :=
 
 Definition is_some {A} (o : option A) : bool := match o with Some _ => true | None => false end.
 
+Fixpoint requested (es : list event) : list pid :=
+  match es with
+  | [] => []
+  | EReq _ p _ _ _ _ :: t => p :: requested t
+  | _ :: t => requested t
+  end.
+(* every promise handed out by Request was completed *)
+Definition all_resolved_b (es : list event) : bool :=
+  let done := resolved es in forallb (fun p => existsb (pid_eqb p) done) (requested es).
+
 (* C01 oracles on the observed events: strict when every request of the script is well formed *)
 Definition c01_violation (c : case) : bool :=
   let es := concat (c_obs c) in
@@ -163,7 +178,8 @@ Definition c01_violation (c : case) : bool :=
   let strict := case_wf c in
   negb (is_some (run_mon (amon_step strict) (amon_init n) es) &&
         is_some (run_mon (smon_step (if strict then MClean else MLenient)) (smon_init n) es) &&
-        one_answer_b es).
+        one_answer_b es &&
+        (if c_drained c then all_resolved_b es else true)).
 
 (* C02 oracles: the discipline monitor (blocks are exactly their waiters' appends) and, for well-formed
    scripts, the shape of every block *)
